@@ -330,6 +330,10 @@ func (x g) value(t *ty, key bool) string {
 	case "base":
 		switch t.lit {
 		case "/number":
+			if !key && x.chance(7) {
+				// factors of 2^64 and the ends of the range: products and sums of them wrap around
+				return x.pick([]string{"4294967296", "-4294967296", "2147483648", "65536", "4611686018427387904", "9223372036854775807", "-9223372036854775808", "3037000500"})
+			}
 			return x.pick([]string{"0", "1", "2", "3", "-1", "7"})
 		case "/string":
 			return x.pick([]string{`"a"`, `"b"`, `"c"`, `""`})
